@@ -175,6 +175,44 @@ pub fn aead_case(seed: u64, scn: &Value) -> Value {
     }
 }
 
+/// C19: public-key derivation is multiplication of the base point, for MANY scalars (a fault that hits one key in a few
+/// hundred is invisible to a handful of samples)
+pub fn derive_sweep(seed: u64, scn: &Value) -> Value {
+    let n = ju64_or(scn, "n", 4000);
+    let mut rng = Rng::derive(seed, &format!("sweep{}", ju64_or(scn, "k", 0)));
+    let mut base = [0u8; 32];
+    base[0] = 9;
+    let (mut errors, mut mismatches, mut panics) = (0u64, 0u64, 0u64);
+    let mut first_bad = String::new();
+    for _ in 0..n {
+        let k = rng.bytes32();
+        let r = catch_unwind(AssertUnwindSafe(|| {
+            let a = kestrel_crypto::x25519_derive_public(&k);
+            let b = kestrel_crypto::x25519(&k, &base);
+            let c = kestrel_crypto::PrivateKey::try_from(&k[..]).unwrap().to_public().map(|p| p.as_bytes().to_vec());
+            (a.ok(), b.ok(), c.ok())
+        }));
+        match r {
+            Err(_) => panics += 1,
+            Ok((Some(a), Some(b), Some(c))) => {
+                if a != b || a != c {
+                    mismatches += 1;
+                    if first_bad.is_empty() {
+                        first_bad = hex(&k);
+                    }
+                }
+            }
+            Ok(_) => {
+                errors += 1;
+                if first_bad.is_empty() {
+                    first_bad = hex(&k);
+                }
+            }
+        }
+    }
+    json!({"ev":"sweep","id":scn.get("id").cloned().unwrap_or(json!("")),"n":n,"errors":errors,"mismatches":mismatches,"panics":panics,"first_bad":first_bad})
+}
+
 pub fn dh_case(seed: u64, scn: &Value) -> Value {
     let c = scn.get("c").expect("c");
     let mut rng = Rng::derive(seed, &format!("dh{}", scn.get("id").map(|x| x.to_string()).unwrap_or_default()));
@@ -610,6 +648,7 @@ pub fn run_file(_t: &Templates, seed: u64, inp: &str, outp: &str) {
             "rfc" => rfc_term(seed, &scn),
             "aead" => aead_case(seed, &scn),
             "dh" => dh_case(seed, &scn),
+            "derive_sweep" => derive_sweep(seed, &scn),
             "prim" => prim(&scn),
             "erase" => erase_program(seed, &scn),
             x => panic!("op {}", x),
